@@ -9,7 +9,7 @@ ids = [p['id'] for p in props]
 T_BX = 'bounded-exhaustive enumeration of a finite input universe on the real code (explicit-state, no sampling), '
 CHECKS = {
  'C01': ('BX', 'model_checking', T_BX + 'differential against the public per-rule matcher + independent precedence combiner',
-   'All ordered lists of <= 2 (quick) / <= 3 (thorough) rules of a 61-rule alphabet (one rule per shortcut of the token index, twins that differ in one attribute a dedup key could miss, hosts lines) are built into real engines and queried under every tag subset with a request universe in which every rule token occurs as whole token, proper suffix, proper prefix, first and last; bucket-forcing lists store each rule under each of its tokens in turn; every cell of the shared rule cube (about 55 pattern shapes x 25 option sets x exception) runs alone and next to 7 partner rules; every (blocking, exception, modifier) triple of the alphabet; n same-bucket rules for every n up to 120 / 300; a frozen corpus of 3 613 real rules is loaded as one list against URLs derived from every rule; the request universe includes non-ASCII paths and URLs of 150 / 400 tokens; every verdict field is compared with rule-by-rule evaluation; lists of <= 2 rules, the shared-domain-bucket lists, a quarter (thorough: half) of the cube and every fourth bucket size are also handed rule by rule to an empty blocker (Blocker::add_filter), with the same comparison. Exhaustive within the bound.',
+   'All ordered lists of <= 2 (quick) / <= 3 (thorough) rules of a 61-rule alphabet (one rule per shortcut of the token index, twins that differ in one attribute a dedup key could miss, hosts lines) are built into real engines and queried under every tag subset with a request universe in which every rule token occurs as whole token, proper suffix, proper prefix, first and last; bucket-forcing lists store each rule under each of its tokens in turn; every cell of the shared rule cube (about 55 pattern shapes x 25 option sets x exception) runs alone and next to 7 partner rules; every (blocking, exception, modifier) triple of the alphabet; n same-bucket rules for every n up to 120 / 300; a frozen corpus of 3 613 real rules is loaded as one list against URLs derived from every rule; the request universe includes non-ASCII paths and URLs of 150 / 400 tokens; every verdict field is compared with rule-by-rule evaluation; lists of <= 2 rules, the shared-domain-bucket lists, an eighth (thorough: half) of the cube and every fourth bucket size are also handed rule by rule to an empty blocker (Blocker::add_filter), with the same comparison. Exhaustive within the bound.',
    'Per-rule match is taken from the real NetworkFilter::matches (its correctness is C02/C03); combiner, redirect, removeparam and CSP references are independent. seahash collision freedom checked for the alphabet.', 'DESIGN §4 C01'),
  'C02': ('BX', 'model_checking', T_BX + 'compared with an independent reference pattern matcher',
    'Every pattern body up to length 6 (quick) / 7 (thorough) over {a,b,.,/,*,^} in eight anchor modes (none, |, trailing |, both, ||, || with trailing |, and two scheme-prefixed left anchors) is parsed by the real parser and matched by the real matcher against every URL of a universe built to make the anchor text collide (repeated, prefix, suffix, userinfo); each verdict is compared with a 100-line reference written from the property text; weakening relations and a curated full-regex universe are added.',
